@@ -149,11 +149,23 @@ func body(c *kernel.Ctx) {
 	// network: lossy, reordering; everything the honest nodes send is visible to the adversary
 	var mu sync.Mutex
 	var seen []*pbv1.QBFTConsensusMsg
+	// honestCommits[value hash][member] = that honest member put a COMMIT of its own for the value on the wire
+	// (envelopes written by the honest nodes' own transports; injected Byzantine traffic does not pass here)
+	honestCommits := map[[32]byte]map[int64]bool{}
 	cl.Net.Fate = func(e *simnet.Envelope) simnet.Fate {
 		fate := simnet.Fate{Delay: time.Duration(verifrt.Intn("n", maxLat)) * time.Millisecond}
 		if e.Proto == protoQBFT {
 			if m, err := unframe(e.Payload); err == nil {
 				mu.Lock()
+				if q := m.GetMsg(); q.GetType() == 3 && len(q.GetValueHash()) == 32 && q.GetPeerIdx() >= 0 && q.GetPeerIdx() < int64(n) &&
+					!byz[q.GetPeerIdx()] && e.From == cl.PeerIDs[q.GetPeerIdx()] {
+					var h [32]byte
+					copy(h[:], q.GetValueHash())
+					if honestCommits[h] == nil {
+						honestCommits[h] = map[int64]bool{}
+					}
+					honestCommits[h][q.GetPeerIdx()] = true
+				}
 				if len(seen) < 400 {
 					seen = append(seen, m)
 				}
@@ -209,10 +221,22 @@ func body(c *kernel.Ctx) {
 					other = &jj
 				}
 			}
-			mu.Unlock()
 			dg := digest(pb)
+			// every decision is backed by commit votes of a quorum of distinct members: members that can have voted
+			// for this value are the Byzantine ones, this node itself (its own COMMIT reaches it without the
+			// network) and the honest members whose COMMIT for exactly this value has been put on the wire
+			backers := nb + 1
+			for h := range honestCommits[dg] {
+				if int(h) != me {
+					backers++
+				}
+			}
+			mu.Unlock()
 			verifrt.Note("n%d decided view-hash %x", me, dg[:4])
 			c.Progress()
+			if quorum := (2*n + 2) / 3; backers < quorum {
+				c.Violate("C03", "commit-quorum", "decision-without-a-quorum-of-commit-votes", "node %d decided %x although at most %d members can have sent a COMMIT for that value (this node, %d Byzantine member(s) and %d honest member(s) whose COMMIT for it is on the wire); the quorum of n=%d is %d", me, dg[:6], backers, nb, backers-nb-1, n, quorum)
+			}
 			if nd > 1 {
 				c.Violate("C03", "decide-twice", "node-decided-more-than-once", "node %d delivered %d decisions for %v", me, nd, duty)
 			}
@@ -320,7 +344,42 @@ func body(c *kernel.Ctx) {
 				}
 				return out
 			}
-			switch verifrt.Intn("a", 7) {
+			switch verifrt.Intn("a", 8) {
+			case 7: // a vote of its own that carries, as "justification", the same vote attributed to every honest
+				// member - with a made-up signature, signed with the Byzantine member's own key, or with the signature
+				// bytes of some genuine message of that member - for one value towards some members, for another
+				// value towards the others (an implementation that counts attached votes must authenticate them)
+				typ := int64(2 + verifrt.Intn("a", 2))
+				how := verifrt.Intn("a", 3)
+				for _, bb := range byzIDs {
+					for ti, to := range honest {
+						v := v1
+						if ti%2 == 1 {
+							v = v2
+						}
+						var j []*pbv1.QBFTMsg
+						for _, h := range honest {
+							q := &pbv1.QBFTMsg{Type: typ, Duty: core.DutyToProto(duty), PeerIdx: int64(h), Round: round, ValueHash: candHash[v][:]}
+							switch how {
+							case 0:
+								q.Signature = make([]byte, 65)
+								q.Signature[5] = byte(h + 1)
+							case 1:
+								q = sign(q, cl.Keys[bb])
+							default:
+								q.Signature = make([]byte, 65)
+								for _, m := range obs {
+									if m.GetMsg().GetPeerIdx() == int64(h) {
+										q.Signature = append([]byte(nil), m.GetMsg().GetSignature()...)
+									}
+								}
+							}
+							j = append(j, q)
+						}
+						send(bb, to, mk(bb, typ, round, v, 0, -1, j))
+					}
+				}
+				verifrt.Probe("adv:vote-with-attributed-votes-attached")
 			case 0: // equivocating leader of this or a coming round
 				for r := round; r <= round+2; r++ {
 					if !byz[leader(r)] {
